@@ -31,9 +31,9 @@ MANIFEST = dict(
     text=("Store model of LocalClient (package -> ordered version list, version key -> requirement list) parametric in a semver "
           "oracle; theorems over all AddVersion/MatchingVersions histories (no length bound): last addition wins for Version "
           "and Requirements, Versions lists each live key once in ecosystem order, every mentioned package is known, never "
-          "added keys are not found — proved for the repaired AddVersion, refuted by witness for the code in the tree "
-          "(F-C14-1: the replace branch stores the old value back), and the one-token repair alone shown insufficient for "
-          "npm order when tags change. Model tied to the code by differential execution of histories; the Go outputs are "
+          "added keys are not found — proved for AddVersion as repaired in the tree (3f7cc9a), refuted by witness for the old code "
+          "(F-C14-1, fixed: the replace branch stored the old value back), and the one-token repair alone shown insufficient for "
+          "npm order when tags change; the variant tied to the tree is detected on every run by replaying the witnesses. Model tied to the code by differential execution of histories; the Go outputs are "
           "also compared with a map-based python reference."),
     note=("Trusted: Coq 8.16.1 kernel (+vm_compute), translator gotables, extraction (ExtrOcamlBasic only) and driver.ml, the "
           "Go harness and python generators/reference. The Gallina model is hand-written and validated against the "
@@ -50,7 +50,7 @@ NAMES = {
 }
 DEP_ONLY = {NPM: [b"only-dep", b"A", b"Zed"], MAVEN: [b"g:only"], PYPI: [b"only-dep"]}
 # tags whose substring and exact readings agree (the difference is F-C12-2, decided by C12)
-TAGSETS = [b"latest", b"next", b"latest,next", b"beta", b"next,latest", b"", b"beta,canary"]
+TAGSETS = [b"latest", b"next", b"latest,next", b"beta", b"next,latest", b"", b"beta,canary", b"latest-2,latest", b"notlatest,latest", b"latest-2"]
 DEP_TYPES = [[], [], [], [[cc.D_DEV, b""]], [[cc.D_OPT, b""]], [[cc.D_KNOWNAS, b"alias"]], [[cc.D_KNOWNAS, b"Alias"]],
              [[cc.D_DEV, b""], [cc.D_KNOWNAS, b"b"]], [[cc.D_SCOPE, b"test"]], [[cc.D_DEV, b""], [cc.D_OPT, b""]],
              [[cc.D_KNOWNAS, b"a"]], [[cc.D_TEST, b""]]]
